@@ -30,6 +30,8 @@ Proof.
   - intros H x Hx. apply cnt_In. apply H. apply cnt_In. exact Hx.
 Qed.
 
+Global Opaque cnt.
+
 Lemma seqN_In b n x : In x (seqN b n) <-> b <= x < b + N.of_nat n.
 Proof.
   unfold seqN. rewrite in_map_iff. split.
@@ -63,6 +65,8 @@ Proof.
   revert l'. induction l as [|a l IH]; intros [|b l'] H; cbn in *; try reflexivity; try discriminate.
   f_equal. apply IH. lia.
 Qed.
+
+Ltac nlia := unfold tid, cid in *; lia.
 
 (* ------------------------------------------------------------------ structure of the aggregated lists *)
 
@@ -123,8 +127,9 @@ Definition Inv (s : lstate) : Prop := InvC [] s /\ InvT s.
 
 Lemma Inv_init : Inv init.
 Proof.
-  split; constructor; cbn; intros; try lia; try contradiction.
-  - intros k t H. destruct k; discriminate.
+  split; constructor; unfold defs_of, uses_of, tids_of, tables_ordered; cbn [init tables frames mapping next_cid next_tid Tdefs Tuses Fdefs Fuses flat_map map reserved mapping_cids app];
+    intros; rewrite ?cnt_nil in *; try nlia; try contradiction.
+  destruct k; discriminate.
 Qed.
 
 (* ---- generic facts about tables_ordered ---- *)
@@ -136,10 +141,10 @@ Proof.
   destruct (Nat.lt_ge_cases k (length ts)) as [Hlt|Hge].
   - rewrite nth_error_app1 in Hk by exact Hlt. specialize (Ho k t' Hk).
     rewrite firstn_app. rewrite map_length.
-    replace (k - length ts)%nat with 0%nat by lia. cbn [firstn]. rewrite app_nil_r. exact Ho.
+    replace (k - length ts)%nat with 0%nat by nlia. cbn [firstn]. rewrite app_nil_r. exact Ho.
   - rewrite nth_error_app2 in Hk by exact Hge.
     destruct (k - length ts)%nat as [|j] eqn:E; cbn in Hk; [|destruct j; discriminate].
-    injection Hk as <-. assert (k = length ts) as -> by lia.
+    injection Hk as <-. assert (k = length ts) as -> by nlia.
     rewrite firstn_app, map_length, Nat.sub_diag. cbn [firstn]. rewrite app_nil_r.
     rewrite <- (map_length t_id ts), firstn_all. exact Hi.
 Qed.
@@ -168,7 +173,7 @@ Lemma InvT_tid_mono s n :
   next_tid s <= n -> InvT s -> InvT (mkL (next_cid s) n (mapping s) (frames s) (tables s)).
 Proof.
   intros Hn [H1 H2 H3 H4 H5 H6]. constructor; unfold tids_of in *; cbn [next_tid frames tables]; try assumption.
-  intros x Hx. specialize (H2 x Hx). lia.
+  intros x Hx. specialize (H2 x Hx). nlia.
 Qed.
 
 (* ---- resolve_src ---- *)
@@ -190,38 +195,38 @@ Proof.
   - destruct (find_table (tables s) t0) as [d|] eqn:F; [|discriminate].
     intro H; injection H as <- <- <-. apply find_table_some in F as [Hin Hid].
     split; [exact HC|]. split; [exact HT|]. split; [rewrite <- Hid; apply in_map; exact Hin|].
-    repeat split; try reflexivity; lia.
+    repeat split; try reflexivity; nlia.
   - destruct (guard s (leaf_cids l)) eqn:G; [|discriminate].
     intro H; injection H as <- <- <-. cbn [next_cid next_tid mapping frames tables].
     destruct HC as [C1 C2 C3 C4]. destruct HT as [T1 T2 T3 T4 T5 T6].
     assert (forall y, cnt (tids_of (mkL (next_cid s) (next_tid s + 1) (mapping s) (frames s)
               (tables s ++ [mkTable (next_tid s) None (mkRel (leaf_kind l) lc)]))) y
             = (cnt (tids_of s) y + cnt [next_tid s] y)%nat) as Et.
-    { intro y. unfold tids_of. cbn [tables frames]. rewrite ids_snoc. cbn [t_id]. rewrite !cnt_app. lia. }
+    { intro y. unfold tids_of. cbn [tables frames]. rewrite ids_snoc. cbn [t_id]. rewrite !cnt_app. nlia. }
     split; [|split; [|split; [|split; [|split; [|split; [|split]]]]]]; try reflexivity.
     + (* InvC *) constructor; unfold defs_of, uses_of; cbn [next_cid mapping frames tables];
         rewrite ?Tdefs_snoc, ?Tuses_snoc; cbn [t_relation].
       * intro y. specialize (C1 y). unfold defs_of in C1. unfold relation_defs. cbn [r_kind].
-        destruct l; cbn [leaf_kind]; rewrite !cnt_app, ?cnt_nil in *; lia.
+        destruct l; cbn [leaf_kind]; rewrite !cnt_app, ?cnt_nil in *; nlia.
       * intros y Hy. apply C2. unfold defs_of. unfold relation_defs in Hy. cbn [r_kind] in Hy.
-        destruct l; cbn [leaf_kind] in Hy; rewrite !cnt_app, ?cnt_nil in *; lia.
+        destruct l; cbn [leaf_kind] in Hy; rewrite !cnt_app, ?cnt_nil in *; nlia.
       * intros y Hy. specialize (C3 y Hy). unfold defs_of in C3. unfold relation_defs. cbn [r_kind].
-        destruct l; cbn [leaf_kind]; rewrite !cnt_app, ?cnt_nil in *; lia.
+        destruct l; cbn [leaf_kind]; rewrite !cnt_app, ?cnt_nil in *; nlia.
       * intros y Hy. rewrite !cnt_app in Hy.
         assert (cnt (Tuses (tables s) ++ Fuses (frames s)) y > 0 \/ cnt (leaf_cids l) y > 0)%nat as [Hu|Hu].
         { unfold relation_uses in Hy. cbn [r_kind] in Hy. rewrite cnt_app.
-          destruct l; cbn [leaf_kind leaf_cids] in *; rewrite ?cnt_nil in *; lia. }
+          destruct l; cbn [leaf_kind leaf_cids] in *; rewrite ?cnt_nil in *; nlia. }
         -- specialize (C4 y Hu). unfold defs_of in C4. unfold relation_defs. cbn [r_kind].
-           destruct l; cbn [leaf_kind]; rewrite !cnt_app, ?cnt_nil in *; lia.
+           destruct l; cbn [leaf_kind]; rewrite !cnt_app, ?cnt_nil in *; nlia.
         -- pose proof (guard_cnt s _ G y Hu) as Hm. specialize (C3 y Hm). unfold defs_of in C3. unfold relation_defs. cbn [r_kind].
-           destruct l; cbn [leaf_kind]; rewrite !cnt_app, ?cnt_nil in *; lia.
+           destruct l; cbn [leaf_kind]; rewrite !cnt_app, ?cnt_nil in *; nlia.
     + (* InvT *) constructor; cbn [next_tid frames tables].
       * intro y. rewrite Et. rewrite cnt_single. specialize (T1 y).
-        destruct (N.eq_dec (next_tid s) y) as [<-|]; [|lia].
-        assert (cnt (tids_of s) (next_tid s) = 0)%nat; [|lia].
-        destruct (cnt (tids_of s) (next_tid s)) eqn:E; [reflexivity|]. specialize (T2 (next_tid s)). lia.
+        destruct (N.eq_dec (next_tid s) y) as [<-|]; [|nlia].
+        assert (cnt (tids_of s) (next_tid s) = 0)%nat; [|nlia].
+        destruct (cnt (tids_of s) (next_tid s)) eqn:E; [reflexivity|]. specialize (T2 (next_tid s)). nlia.
       * intros y Hy. rewrite Et in Hy. rewrite cnt_single in Hy.
-        destruct (N.eq_dec (next_tid s) y) as [<-|]; [lia|]. specialize (T2 y). lia.
+        destruct (N.eq_dec (next_tid s) y) as [<-|]; [nlia|]. specialize (T2 y). nlia.
       * apply ordered_snoc; [exact T3|]. cbn [t_relation]. unfold relation_trefs. cbn [r_kind].
         destruct l; cbn [leaf_kind]; intros ? [].
       * intros f Hf y Hy. rewrite ids_snoc. apply in_or_app. left. eapply T4; eassumption.
@@ -229,8 +234,8 @@ Proof.
         cbn [t_relation]. apply pipeline_shape_leaf. intros p. destruct l; discriminate.
       * exact T6.
     + rewrite ids_snoc. apply in_or_app. right. left. reflexivity.
-    + lia.
-    + intros y Hy. rewrite Et, cnt_single. destruct (N.eq_dec (next_tid s) y); [lia|lia].
+    + nlia.
+    + intros y Hy. rewrite Et, cnt_single. destruct (N.eq_dec (next_tid s) y); [nlia|nlia].
 Qed.
 
 (* ---- mk_instance ---- *)
@@ -244,28 +249,28 @@ Proof.
   set (u := uniq cols). set (b := next_cid s).
   assert (tref_cids (mkTRef t (combine u (seqN b (length u))) name) = seqN b (length u)) as Er.
   { unfold tref_cids. cbn [tr_columns]. apply combine_snd. rewrite seqN_length. reflexivity. }
-  cbn [tr_source tables frames next_tid]. repeat split; try reflexivity.
+  cbn [tr_source tables frames next_tid]. split; [|repeat split; reflexivity].
   rewrite Er. constructor; unfold defs_of, uses_of in *; cbn [next_cid mapping frames tables].
   - intro x. specialize (C1 x). pose proof (cnt_seqN_le b (length u) x).
-    destruct (cnt (seqN b (length u)) x) eqn:E; [lia|].
-    assert (b <= x) by (apply (cnt_seqN_pos b (length u) x); lia).
-    destruct (cnt (Tdefs (tables s) ++ Fdefs (frames s)) x) eqn:E2; [lia|].
-    specialize (C2 x). rewrite E2 in C2. cbn in C2. unfold b in *. lia.
+    destruct (cnt (seqN b (length u)) x) eqn:E; [nlia|].
+    assert (b <= x) by (apply (cnt_seqN_pos b (length u) x); nlia).
+    destruct (cnt (Tdefs (tables s) ++ Fdefs (frames s)) x) eqn:E2; [nlia|].
+    specialize (C2 x). rewrite E2 in C2. cbn in C2. unfold b in *. nlia.
   - intros x Hx. destruct (cnt (seqN b (length u)) x) eqn:E.
-    + specialize (C2 x). rewrite cnt_nil in C2. unfold b. lia.
-    + pose proof (cnt_seqN_pos b (length u) x). lia.
+    + specialize (C2 x). rewrite cnt_nil in C2. unfold b. nlia.
+    + pose proof (cnt_seqN_pos b (length u) x). nlia.
   - intros x Hx. unfold mapping_cids in Hx. cbn [flat_map snd target_cids] in Hx. rewrite cnt_app in Hx.
     fold (mapping_cids (mapping s)) in Hx.
     rewrite combine_snd in Hx by (rewrite seqN_length; reflexivity).
-    specialize (C3 x). rewrite cnt_nil in C3. lia.
-  - intros x Hx. specialize (C4 x Hx). rewrite cnt_nil in C4. lia.
+    specialize (C3 x). rewrite cnt_nil in C3. nlia.
+  - intros x Hx. specialize (C4 x Hx). rewrite cnt_nil in C4. nlia.
 Qed.
 
 (* ---- redirect_mappings ---- *)
 
 Lemma redirect_cid_cases rs c : redirect_cid rs c = c \/ In (redirect_cid rs c) (map snd rs).
 Proof.
-  unfold redirect_cid. destruct (find _ rs) as [p|] eqn:F; [|left; reflexivity].
+  unfold redirect_cid. destruct (find (fun p => N.eqb (fst p) c) rs) as [p|] eqn:F; [|left; reflexivity].
   right. apply find_some in F as [F _]. apply in_map. exact F.
 Qed.
 
@@ -290,7 +295,7 @@ Proof.
   intros [C1 C2 C3 C4] Hrs. constructor; unfold defs_of, uses_of in *; cbn [next_cid mapping frames tables]; try assumption.
   intros x Hx. apply cnt_In in Hx. apply redirect_cids in Hx as [Hx|Hx].
   - apply C3. apply cnt_In. exact Hx.
-  - apply Hrs in Hx. apply cnt_In in Hx. lia.
+  - apply Hrs in Hx. apply cnt_In in Hx. nlia.
 Qed.
 
 Lemma combine_snd_incl {A B} (l : list A) (l' : list B) : incl (map snd (combine l l')) l'.
@@ -312,16 +317,16 @@ Proof.
   apply push_top_some in Hp as [k [p [r [Ef ->]]]].
   assert (forall x, cnt (defs_of (mkL (next_cid s) (next_tid s) (mapping s) ((k, p ++ [tr]) :: r) (tables s))) x
                     = (cnt (defs_of s) x + cnt pend x)%nat) as Ed.
-  { intro x. unfold defs_of. cbn [tables frames]. rewrite Ef, !Fdefs_cons, pdefs_snoc, !cnt_app, Hd. lia. }
+  { intro x. unfold defs_of. cbn [tables frames]. rewrite Ef, !Fdefs_cons, pdefs_snoc, !cnt_app, Hd. nlia. }
   assert (forall x, cnt (uses_of (mkL (next_cid s) (next_tid s) (mapping s) ((k, p ++ [tr]) :: r) (tables s))) x
                     = (cnt (uses_of s) x + cnt (transform_uses tr) x)%nat) as Eu.
-  { intro x. unfold uses_of. cbn [tables frames]. rewrite Ef, !Fuses_cons, puses_snoc, !cnt_app. lia. }
+  { intro x. unfold uses_of. cbn [tables frames]. rewrite Ef, !Fuses_cons, puses_snoc, !cnt_app. nlia. }
   split; constructor; cbn [next_cid next_tid mapping tables].
-  - intro x. rewrite Ed, cnt_nil. specialize (C1 x). lia.
-  - intros x Hx. rewrite Ed, cnt_nil in Hx. apply C2. lia.
-  - intros x Hx. rewrite Ed, cnt_nil. specialize (C3 x Hx). lia.
+  - intro x. rewrite Ed, cnt_nil. specialize (C1 x). nlia.
+  - intros x Hx. rewrite Ed, cnt_nil in Hx. apply C2. nlia.
+  - intros x Hx. rewrite Ed, cnt_nil. specialize (C3 x Hx). nlia.
   - intros x Hx. rewrite Ed, cnt_nil. rewrite Eu in Hx.
-    destruct (cnt (uses_of s) x) eqn:E; [specialize (Hu x); lia | specialize (C4 x); lia].
+    destruct (cnt (uses_of s) x) eqn:E; [specialize (Hu x); nlia | specialize (C4 x); nlia].
   - intro x. unfold tids_of in *. cbn [tables frames]. rewrite Ef in T1. exact (T1 x).
   - intros x Hx. unfold tids_of in *. cbn [tables frames] in Hx. rewrite Ef in T2. exact (T2 x Hx).
   - exact T3.
@@ -333,4 +338,312 @@ Proof.
     + destruct (T6 (k, p)) as [r0 [p' E]]; [rewrite Ef; left; reflexivity | exact Hk |].
       cbn [snd] in E. subst p. exists r0, (p' ++ [tr]). reflexivity.
     + apply T6; [rewrite Ef; right; exact Hf | exact Hk].
+Qed.
+
+(* ---- opening a frame with its From ---- *)
+
+Lemma reserved_cons k p fs :
+  reserved ((k, p) :: fs) = (match k with FInline t => [t] | _ => [] end) ++ reserved fs.
+Proof. reflexivity. Qed.
+
+Lemma newframe_inv pend s k r :
+  InvC pend s -> InvT s ->
+  (forall x, cnt (tref_cids r) x = cnt pend x) ->
+  In (tr_source r) (map t_id (tables s)) ->
+  match k with
+  | FInline t0 => cnt (tids_of s) t0 = 0%nat /\ t0 < next_tid s
+  | FTable => True
+  | FLoop => False
+  end ->
+  Inv (mkL (next_cid s) (next_tid s) (mapping s) ((k, [TFrom r]) :: frames s) (tables s)).
+Proof.
+  intros [C1 C2 C3 C4] [T1 T2 T3 T4 T5 T6] Hd Hs Hk.
+  assert (forall x, cnt (defs_of (mkL (next_cid s) (next_tid s) (mapping s) ((k, [TFrom r]) :: frames s) (tables s))) x
+                    = (cnt (defs_of s) x + cnt pend x)%nat) as Ed.
+  { intro x. unfold defs_of. cbn [tables frames]. rewrite Fdefs_cons. unfold pipeline_defs. cbn [flat_map transform_defs].
+    rewrite app_nil_r, !cnt_app, Hd. nlia. }
+  assert (forall x, cnt (uses_of (mkL (next_cid s) (next_tid s) (mapping s) ((k, [TFrom r]) :: frames s) (tables s))) x
+                    = cnt (uses_of s) x) as Eu.
+  { intro x. unfold uses_of. cbn [tables frames]. rewrite Fuses_cons. cbn [flat_map transform_uses app]. reflexivity. }
+  split; constructor; cbn [next_cid next_tid mapping tables].
+  - intro x. rewrite Ed, cnt_nil. specialize (C1 x). nlia.
+  - intros x Hx. rewrite Ed, cnt_nil in Hx. apply C2. nlia.
+  - intros x Hx. rewrite Ed, cnt_nil. specialize (C3 x Hx). nlia.
+  - intros x Hx. rewrite Ed, cnt_nil. rewrite Eu in Hx. specialize (C4 x Hx). nlia.
+  - intro x. unfold tids_of in *. cbn [tables frames]. rewrite reserved_cons, !cnt_app. specialize (T1 x). rewrite cnt_app in T1.
+    destruct k as [|t0|]; rewrite ?cnt_nil; try nlia.
+    destruct Hk as [Hk _]. rewrite cnt_app in Hk. rewrite cnt_single. destruct (N.eq_dec t0 x) as [<-|]; nlia.
+  - intros x Hx. unfold tids_of in *. cbn [tables frames] in Hx. rewrite reserved_cons, !cnt_app in Hx.
+    destruct k as [|t0|]; rewrite ?cnt_nil in Hx; try (apply T2; rewrite ?cnt_app; nlia).
+    rewrite cnt_single in Hx. destruct (N.eq_dec t0 x) as [<-|]; [tauto | apply T2; rewrite ?cnt_app; nlia].
+  - exact T3.
+  - cbn [frames]. intros f [<-|Hf]; cbn [snd]; [|apply T4; exact Hf].
+    cbn [flat_map transform_trefs app]. intros ? [<-|[]]. exact Hs.
+  - exact T5.
+  - cbn [frames]. intros f [<-|Hf] Hk'; cbn [snd fst] in *; [eauto | apply T6; assumption].
+Qed.
+
+(* ---- instance + use + push: shared by OInstance and OEndInline ---- *)
+
+Lemma apply_use_facts s r u tr :
+  apply_use s r u = Some tr ->
+  transform_defs tr = tref_cids r /\ transform_trefs tr = [tr_source r]
+  /\ (forall x, (cnt (transform_uses tr) x > 0 -> cnt (mapping_cids (mapping s)) x > 0)%nat).
+Proof.
+  destruct u as [|sd f|]; cbn [apply_use].
+  - intro H; injection H as <-. cbn. repeat split. intros x Hx. rewrite cnt_nil in Hx. nlia.
+  - destruct (guard s (expr_cids f)) eqn:G; [|discriminate]. intro H; injection H as <-. cbn. repeat split.
+    apply guard_cnt. exact G.
+  - intro H; injection H as <-. cbn. repeat split. intros x Hx. rewrite cnt_nil in Hx. nlia.
+Qed.
+
+Lemma use_push_inv s r u tr fs :
+  InvC (tref_cids r) s -> InvT s -> In (tr_source r) (map t_id (tables s)) ->
+  apply_use s r u = Some tr -> push_top tr (frames s) = Some fs ->
+  Inv (mkL (next_cid s) (next_tid s) (mapping s) fs (tables s)).
+Proof.
+  intros HC HT Hs Hu Hp. apply apply_use_facts in Hu as [Hd [Ht Hu]].
+  eapply push_inv; try eassumption.
+  - intro x. rewrite Hd. reflexivity.
+  - intros x Hx. apply (c_map _ _ HC). apply Hu. exact Hx.
+  - rewrite Ht. intros ? [<-|[]]. exact Hs.
+Qed.
+
+(* ------------------------------------------------------------------ every step keeps the invariant *)
+
+Lemma simple_facts t : simple t = true -> transform_defs t = [] /\ transform_trefs t = [].
+Proof. destruct t; cbn; try discriminate; auto. Qed.
+
+Theorem step_inv s o s' : Inv s -> step s o = Some s' -> Inv s'.
+Proof.
+  intros [HC HT]. destruct o; cbn [step].
+  - (* ODeclExtern *)
+    intro H; injection H as <-. destruct HC as [C1 C2 C3 C4]. destruct HT as [T1 T2 T3 T4 T5 T6].
+    assert (forall y, cnt (tids_of (mkL (next_cid s) (next_tid s + 1) (mapping s) (frames s)
+              (tables s ++ [mkTable (next_tid s) None (mkRel (KExternRef name) cols)]))) y
+            = (cnt (tids_of s) y + cnt [next_tid s] y)%nat) as Et.
+    { intro y. unfold tids_of. cbn [tables frames]. rewrite ids_snoc. cbn [t_id]. rewrite !cnt_app. nlia. }
+    split; constructor; unfold defs_of, uses_of in *; cbn [next_cid next_tid mapping frames tables];
+      rewrite ?Tdefs_snoc, ?Tuses_snoc; cbn [t_relation]; unfold relation_defs, relation_uses; cbn [r_kind];
+      rewrite ?app_nil_r; try assumption.
+    + intro y. rewrite Et, cnt_single. specialize (T1 y). destruct (N.eq_dec (next_tid s) y) as [<-|]; [|nlia].
+      destruct (cnt (tids_of s) (next_tid s)) eqn:E; [nlia|]. specialize (T2 (next_tid s)). nlia.
+    + intros y Hy. rewrite Et, cnt_single in Hy. destruct (N.eq_dec (next_tid s) y) as [<-|]; [nlia|].
+      specialize (T2 y). nlia.
+    + apply ordered_snoc; [exact T3|]. intros ? [].
+    + intros f Hf y Hy. rewrite ids_snoc. apply in_or_app. left. eapply T4; eassumption.
+    + intros t' Ht'. apply in_app_or in Ht' as [Ht'|[<-|[]]]; [apply T5; exact Ht'|].
+      apply pipeline_shape_leaf. discriminate.
+  - (* OBegin *)
+    set (k := if inline then FInline (next_tid s) else FTable).
+    set (s1 := if inline then mkL (next_cid s) (next_tid s + 1) (mapping s) (frames s) (tables s) else s).
+    assert (InvC [] s1) as HC1 by (unfold s1; destruct inline; [eapply InvC_ext; [..|exact HC]; reflexivity | exact HC]).
+    assert (InvT s1) as HT1.
+    { unfold s1; destruct inline; [|exact HT]. apply InvT_tid_mono; [nlia | exact HT]. }
+    destruct (resolve_src s1 s0) as [[[t cols] s2]|] eqn:R; [|discriminate].
+    destruct (resolve_src_inv _ _ _ _ _ HC1 HT1 R) as [HC2 [HT2 [Hin [E1 [E2 [E3 [E4 E5]]]]]]].
+    destruct (mk_instance s2 node name t cols) as [r s3] eqn:M.
+    destruct (mk_instance_inv _ _ _ _ _ _ _ HC2 M) as [HC3 [Hsrc [Et [Ef En]]]].
+    intro H; injection H as <-.
+    apply newframe_inv with (pend := tref_cids r).
+    + exact HC3.
+    + eapply InvT_ext; [..|exact HT2]; assumption.
+    + reflexivity.
+    + rewrite Hsrc, Et. exact Hin.
+    + unfold k. destruct inline; [|exact I].
+      assert (next_tid s1 = next_tid s + 1) as En1 by reflexivity.
+      split.
+      * unfold tids_of. rewrite Et, Ef. fold (tids_of s2). rewrite E5 by nlia.
+        unfold s1, tids_of. cbn [tables frames]. fold (tids_of s).
+        destruct (cnt (tids_of s) (next_tid s)) eqn:E; [reflexivity|]. pose proof (t_bound _ HT (next_tid s)). nlia.
+      * rewrite En. nlia.
+  - (* OBeginLoop *)
+    destruct (frames s) as [|f fs] eqn:Ef; [discriminate|]. intro H; injection H as <-.
+    destruct HC as [C1 C2 C3 C4]. destruct HT as [T1 T2 T3 T4 T5 T6].
+    split; constructor; unfold defs_of, uses_of, tids_of in *; cbn [next_cid next_tid mapping frames tables]; rewrite Ef in *;
+      try assumption.
+    + intros g [<-|Hg]; [cbn; intros ? [] | apply T4; exact Hg].
+    + intros g [<-|Hg] Hk; [cbn in Hk; congruence | apply T6; assumption].
+  - (* OInstance *)
+    destruct (resolve_src s s0) as [[[t cols] s2]|] eqn:R; [|discriminate].
+    destruct (resolve_src_inv _ _ _ _ _ HC HT R) as [HC2 [HT2 [Hin [E1 [E2 [E3 [E4 E5]]]]]]].
+    destruct (mk_instance s2 node name t cols) as [r s3] eqn:M.
+    destruct (mk_instance_inv _ _ _ _ _ _ _ HC2 M) as [HC3 [Hsrc [Et [Ef En]]]].
+    destruct (apply_use s3 r u) as [tr|] eqn:U; [|discriminate].
+    destruct (push_top tr (frames s3)) as [fs|] eqn:P; [|discriminate].
+    intro H; injection H as <-.
+    eapply use_push_inv; try eassumption.
+    + eapply InvT_ext; [..|exact HT2]; assumption.
+    + rewrite Hsrc, Et. exact Hin.
+  - (* ODeclare *)
+    assert (forall X, (match lookup_node (mapping s) node with Some (MCompute _) => Some s | _ => X end = Some s') ->
+                      (Some s = Some s' \/ X = Some s')) as Hcase.
+    { intros X. destruct (lookup_node (mapping s) node) as [[?|?]|]; auto. }
+    intro H. apply Hcase in H as [H|H]; [injection H as <-; split; assumption|].
+    destruct (guard s (expr_cids e ++ window_cids w)) eqn:G; [|discriminate].
+    assert (forall c, e = ERef c -> plain_ok = true ->
+              Inv (mkL (next_cid s) (next_tid s) ((node, MCompute c) :: mapping s) (frames s) (tables s))) as Halias.
+    { intros c -> _. split; [|eapply InvT_ext; [..|exact HT]; reflexivity].
+      destruct HC as [C1 C2 C3 C4]. constructor; unfold defs_of, uses_of in *; cbn [next_cid mapping frames tables]; try assumption.
+      intros x Hx. unfold mapping_cids in Hx. cbn [flat_map snd target_cids] in Hx. fold (mapping_cids (mapping s)) in Hx.
+      rewrite cnt_app in Hx. apply C3.
+      destruct (cnt (mapping_cids (mapping s)) x) eqn:E; [|nlia].
+      apply (guard_cnt s _ G). cbn [expr_cids]. rewrite cnt_app. cbn [app] in Hx. nlia. }
+    assert (forall fs, push_top (TCompute (next_cid s) e w agg) (frames s) = Some fs ->
+              Inv (mkL (next_cid s + 1) (next_tid s) ((node, MCompute (next_cid s)) :: mapping s) fs (tables s))) as Hnew.
+    { intros fs P.
+      set (s1 := mkL (next_cid s + 1) (next_tid s) ((node, MCompute (next_cid s)) :: mapping s) (frames s) (tables s)).
+      assert (InvC [next_cid s] s1) as HC1.
+      { destruct HC as [C1 C2 C3 C4]. constructor; unfold defs_of, uses_of in *; cbn [s1 next_cid mapping frames tables].
+        - intro x. specialize (C1 x). rewrite cnt_single, cnt_nil in *. destruct (N.eq_dec (next_cid s) x) as [<-|]; [|nlia].
+          destruct (cnt (Tdefs (tables s) ++ Fdefs (frames s)) (next_cid s)) eqn:E; [nlia|]. specialize (C2 (next_cid s)). nlia.
+        - intros x Hx. rewrite cnt_single in Hx. destruct (N.eq_dec (next_cid s) x) as [<-|]; [nlia|].
+          specialize (C2 x). rewrite cnt_nil in C2. nlia.
+        - intros x Hx. unfold mapping_cids in Hx. cbn [flat_map snd target_cids] in Hx. fold (mapping_cids (mapping s)) in Hx.
+          rewrite cnt_app in Hx. rewrite (cnt_single (next_cid s) x) in *. specialize (C3 x). rewrite cnt_nil in C3.
+          destruct (N.eq_dec (next_cid s) x); nlia.
+        - intros x Hx. specialize (C4 x Hx). rewrite cnt_nil in C4. nlia. }
+      assert (InvT s1) as HT1 by (eapply InvT_ext; [..|exact HT]; reflexivity).
+      change (Inv (mkL (next_cid s1) (next_tid s1) (mapping s1) fs (tables s1))).
+      eapply push_inv; try eassumption.
+      - intro x. reflexivity.
+      - intros x Hx. apply (c_map _ _ HC1). cbn [s1 mapping]. unfold mapping_cids. cbn [flat_map snd target_cids].
+        fold (mapping_cids (mapping s)). rewrite cnt_app. cbn [transform_uses] in Hx.
+        pose proof (guard_cnt s _ G x Hx). nlia.
+      - intros ? []. }
+    destruct e; destruct plain_ok;
+      try (destruct (push_top _ (frames s)) as [fs|] eqn:P; [|discriminate]; injection H as <-; apply Hnew; exact P).
+    injection H as <-. apply (Halias c); reflexivity.
+  - (* OPush *)
+    destruct (simple t && guard s (transform_uses t)) eqn:G; [|discriminate].
+    apply andb_true_iff in G as [G1 G2]. destruct (simple_facts t G1) as [Hd Ht].
+    destruct (push_top t (frames s)) as [fs|] eqn:P; [|discriminate]. intro H; injection H as <-.
+    eapply push_inv; try eassumption.
+    + intro x. rewrite Hd. reflexivity.
+    + intros x Hx. apply (c_map _ _ HC). apply (guard_cnt s _ G2). exact Hx.
+    + rewrite Ht. intros ? [].
+  - (* OEndTable *)
+    destruct (frames s) as [|[[| |] p] fs] eqn:Ef; try discriminate.
+    destruct (guard s (map snd frame)) eqn:G; [|discriminate]. intro H; injection H as <-.
+    destruct HC as [C1 C2 C3 C4]. destruct HT as [T1 T2 T3 T4 T5 T6].
+    set (nt := mkTable (next_tid s) name (select_relation p frame)).
+    assert (relation_defs (t_relation nt) = pipeline_defs p) as Erd.
+    { cbn. rewrite pdefs_snoc. cbn [transform_defs]. apply app_nil_r. }
+    assert (relation_uses (t_relation nt) = flat_map transform_uses p ++ map snd frame) as Eru.
+    { cbn. rewrite puses_snoc. reflexivity. }
+    assert (relation_trefs (t_relation nt) = flat_map transform_trefs p) as Ert.
+    { cbn. rewrite ptrefs_snoc. cbn [transform_trefs]. apply app_nil_r. }
+    assert (forall x, cnt (defs_of (mkL (next_cid s) (next_tid s + 1) (mapping s) fs (tables s ++ [nt]))) x = cnt (defs_of s) x) as Ed.
+    { intro x. unfold defs_of. cbn [tables frames]. rewrite Ef, Tdefs_snoc, Erd, Fdefs_cons, !cnt_app. nlia. }
+    assert (forall x, cnt (uses_of (mkL (next_cid s) (next_tid s + 1) (mapping s) fs (tables s ++ [nt]))) x
+                      = (cnt (uses_of s) x + cnt (map snd frame) x)%nat) as Eu.
+    { intro x. unfold uses_of. cbn [tables frames]. rewrite Ef, Tuses_snoc, Eru, Fuses_cons, !cnt_app. nlia. }
+    assert (forall y, cnt (tids_of (mkL (next_cid s) (next_tid s + 1) (mapping s) fs (tables s ++ [nt]))) y
+                      = (cnt (tids_of s) y + cnt [next_tid s] y)%nat) as Et.
+    { intro y. unfold tids_of. cbn [tables frames]. rewrite Ef, ids_snoc. cbn [reserved flat_map fst app t_id nt].
+      fold (reserved fs). rewrite !cnt_app. nlia. }
+    split; constructor; cbn [next_cid next_tid mapping].
+    + intro x. rewrite Ed. exact (C1 x).
+    + intros x Hx. rewrite Ed in Hx. exact (C2 x Hx).
+    + intros x Hx. rewrite Ed. exact (C3 x Hx).
+    + intros x Hx. rewrite Ed, cnt_nil. rewrite Eu in Hx. destruct (cnt (uses_of s) x) eqn:E.
+      * pose proof (guard_cnt s _ G x). specialize (C3 x). rewrite cnt_nil in C3. nlia.
+      * specialize (C4 x). rewrite cnt_nil in C4. nlia.
+    + intro y. rewrite Et, cnt_single. specialize (T1 y). destruct (N.eq_dec (next_tid s) y) as [<-|]; [|nlia].
+      destruct (cnt (tids_of s) (next_tid s)) eqn:E; [nlia|]. specialize (T2 (next_tid s)). nlia.
+    + intros y Hy. rewrite Et, cnt_single in Hy. destruct (N.eq_dec (next_tid s) y) as [<-|]; [nlia|].
+      specialize (T2 y). nlia.
+    + cbn [tables]. apply ordered_snoc; [exact T3|]. rewrite Ert. apply (T4 (FTable, p)). left; reflexivity.
+    + cbn [frames tables]. intros f Hf y Hy. rewrite ids_snoc. apply in_or_app. left.
+      eapply (T4 f); [right; exact Hf | exact Hy].
+    + cbn [tables]. intros t' Ht'. apply in_app_or in Ht' as [Ht'|[<-|[]]]; [apply T5; exact Ht'|].
+      intros p0 E0. cbn in E0. injection E0 as <-.
+      destruct (T6 (FTable, p)) as [r0 [p' Ep]]; [left; reflexivity | discriminate |]. cbn [snd] in Ep. subst p.
+      split; [exists r0, (p' ++ [TSelect (map snd frame)]); reflexivity|].
+      exists (TFrom r0 :: p'), (map snd frame). split; [reflexivity|]. cbn [r_columns select_relation]. rewrite !map_length. reflexivity.
+    + cbn [frames]. intros f Hf. apply T6. right; exact Hf.
+  - (* OEndInline *)
+    destruct (frames s) as [|[[|t|] p] fs] eqn:Ef; try discriminate.
+    destruct (guard s (map snd frame)) eqn:G; [|discriminate].
+    set (nt := mkTable t None (select_relation p frame)).
+    set (s1 := mkL (next_cid s) (next_tid s) (mapping s) fs (tables s ++ [nt])).
+    assert (relation_defs (t_relation nt) = pipeline_defs p) as Erd.
+    { cbn. rewrite pdefs_snoc. cbn [transform_defs]. apply app_nil_r. }
+    assert (relation_uses (t_relation nt) = flat_map transform_uses p ++ map snd frame) as Eru.
+    { cbn. rewrite puses_snoc. reflexivity. }
+    assert (relation_trefs (t_relation nt) = flat_map transform_trefs p) as Ert.
+    { cbn. rewrite ptrefs_snoc. cbn [transform_trefs]. apply app_nil_r. }
+    assert (InvC [] s1 /\ InvT s1) as [HC1 HT1].
+    { destruct HC as [C1 C2 C3 C4]. destruct HT as [T1 T2 T3 T4 T5 T6].
+      assert (forall x, cnt (defs_of s1) x = cnt (defs_of s) x) as Ed.
+      { intro x. unfold defs_of, s1. cbn [tables frames]. rewrite Ef, Tdefs_snoc, Erd, Fdefs_cons, !cnt_app. nlia. }
+      assert (forall x, cnt (uses_of s1) x = (cnt (uses_of s) x + cnt (map snd frame) x)%nat) as Eu.
+      { intro x. unfold uses_of, s1. cbn [tables frames]. rewrite Ef, Tuses_snoc, Eru, Fuses_cons, !cnt_app. nlia. }
+      assert (forall y, cnt (tids_of s1) y = cnt (tids_of s) y) as Et.
+      { intro y. unfold tids_of, s1. cbn [tables frames]. rewrite Ef, ids_snoc. cbn [reserved flat_map fst app t_id nt].
+        fold (reserved fs). rewrite !cnt_app. nlia. }
+      split; constructor; cbn [s1 next_cid next_tid mapping].
+      + intro x. fold s1. rewrite Ed. exact (C1 x).
+      + intros x Hx. fold s1 in Hx. rewrite Ed in Hx. exact (C2 x Hx).
+      + intros x Hx. fold s1. rewrite Ed. exact (C3 x Hx).
+      + intros x Hx. fold s1 in Hx |- *. rewrite Ed, cnt_nil. rewrite Eu in Hx. destruct (cnt (uses_of s) x) eqn:E.
+        * pose proof (guard_cnt s _ G x). specialize (C3 x). rewrite cnt_nil in C3. nlia.
+        * specialize (C4 x). rewrite cnt_nil in C4. nlia.
+      + intro y. fold s1. rewrite Et. exact (T1 y).
+      + intros y Hy. fold s1 in Hy. rewrite Et in Hy. exact (T2 y Hy).
+      + cbn [tables]. apply ordered_snoc; [exact T3|]. rewrite Ert. apply (T4 (FInline t, p)). left; reflexivity.
+      + cbn [frames tables]. intros f Hf y Hy. rewrite ids_snoc. apply in_or_app. left.
+        eapply (T4 f); [right; exact Hf | exact Hy].
+      + cbn [tables]. intros t' Ht'. apply in_app_or in Ht' as [Ht'|[<-|[]]]; [apply T5; exact Ht'|].
+        intros p0 E0. cbn in E0. injection E0 as <-.
+        destruct (T6 (FInline t, p)) as [r0 [p' Ep]]; [left; reflexivity | discriminate |]. cbn [snd] in Ep. subst p.
+        split; [exists r0, (p' ++ [TSelect (map snd frame)]); reflexivity|].
+        exists (TFrom r0 :: p'), (map snd frame). split; [reflexivity|]. cbn [r_columns select_relation]. rewrite !map_length. reflexivity.
+      + cbn [frames]. intros f Hf. apply T6. right; exact Hf. }
+    fold s1. destruct (mk_instance s1 node None t (map fst frame)) as [r s2] eqn:M.
+    destruct (mk_instance_inv _ _ _ _ _ _ _ HC1 M) as [HC2 [Hsrc [Et [Ef2 En]]]].
+    set (rs := combine (map snd frame) (tref_cids r)).
+    pose proof (redirect_inv _ s2 rs HC2 (combine_snd_incl _ _)) as HC3.
+    set (s3 := mkL (next_cid s2) (next_tid s2) (redirect rs (mapping s2)) (frames s2) (tables s2)) in *.
+    destruct (apply_use s3 r u) as [tr|] eqn:U; [|discriminate].
+    destruct (push_top tr (frames s3)) as [fs'|] eqn:P; [|discriminate].
+    intro H; injection H as <-.
+    eapply use_push_inv; try eassumption.
+    + eapply InvT_ext; [..|exact HT1]; assumption.
+    + cbn [s3 tables]. rewrite Hsrc, Et. unfold s1. cbn [tables]. rewrite ids_snoc. apply in_or_app. right. left. reflexivity.
+  - (* OEndLoop *)
+    destruct (frames s) as [|[[| |] p] fs] eqn:Ef; try discriminate.
+    destruct (push_top (TLoop p) fs) as [fs'|] eqn:P; [|discriminate]. intro H; injection H as <-.
+    set (s0 := mkL (next_cid s) (next_tid s) (mapping s) fs (tables s)).
+    assert (InvC (pipeline_defs p) s0) as HC0.
+    { destruct HC as [C1 C2 C3 C4].
+      assert (forall x, (cnt (defs_of s0) x + cnt (pipeline_defs p) x)%nat = cnt (defs_of s) x) as Ed.
+      { intro x. unfold defs_of, s0. cbn [tables frames]. rewrite Ef, Fdefs_cons, !cnt_app. nlia. }
+      constructor; cbn [s0 next_cid mapping]; fold s0.
+      - intro x. rewrite Ed. specialize (C1 x). rewrite cnt_nil in C1. nlia.
+      - intros x Hx. rewrite Ed in Hx. apply C2. rewrite cnt_nil. nlia.
+      - intros x Hx. rewrite Ed. specialize (C3 x Hx). rewrite cnt_nil in C3. nlia.
+      - intros x Hx. rewrite Ed. assert (cnt (uses_of s) x > 0)%nat as Hx'.
+        { unfold uses_of, s0 in *. cbn [tables frames] in Hx. rewrite Ef, Fuses_cons, !cnt_app. rewrite cnt_app in Hx. nlia. }
+        specialize (C4 x Hx'). rewrite cnt_nil in C4. nlia. }
+    assert (InvT s0) as HT0.
+    { destruct HT as [T1 T2 T3 T4 T5 T6]. constructor; unfold tids_of in *; cbn [s0 next_tid frames tables]; rewrite Ef in *; try assumption.
+      - intros f Hf. apply T4. right; exact Hf.
+      - intros f Hf. apply T6. right; exact Hf. }
+    change (Inv (mkL (next_cid s0) (next_tid s0) (mapping s0) fs' (tables s0))).
+    eapply push_inv; try eassumption.
+    + intro x. rewrite loop_defs. reflexivity.
+    + intros x Hx. rewrite loop_uses in Hx.
+      assert (cnt (uses_of s) x > 0)%nat as Hx'.
+      { unfold uses_of. rewrite Ef, Fuses_cons, !cnt_app. nlia. }
+      pose proof (c_uses _ _ HC x Hx') as Hd. rewrite cnt_nil in Hd.
+      unfold defs_of, s0 in *. cbn [tables frames]. rewrite Ef, Fdefs_cons, !cnt_app in Hd. rewrite cnt_app. nlia.
+    + rewrite loop_trefs. cbn [s0 tables]. apply (t_ftrefs _ HT (FLoop, p)). rewrite Ef. left; reflexivity.
+Qed.
+
+Theorem run_inv ops : forall s s', Inv s -> run s ops = Some s' -> Inv s'.
+Proof.
+  induction ops as [|o ops IH]; intros s s' Hi; cbn [run].
+  - intro H; injection H as <-. exact Hi.
+  - destruct (step s o) as [s1|] eqn:E; [|discriminate]. intro H. eapply IH; [|exact H]. eapply step_inv; eassumption.
 Qed.
